@@ -98,6 +98,9 @@ func c14Values(c *Ctx) {
 			},
 		},
 	})
+	if sp := c14SpecPairs(c); sp != nil {
+		ck.A3(r, sp)
+	}
 	for _, d := range ck.IP.Diag {
 		r.Unknown("A0", "diag/values/"+d, "", d)
 	}
